@@ -3,6 +3,8 @@
    machine, laws of the split, and one emitted case per text for replay into SearchKeywordTerms. *)
 EXTENDS YKwParams, Json, CSV, IOUtils
 CONSTANTS Tokens, MaxLen
+\* defined here, not in the cfg: TLC's cfg parser keeps backslash escapes in string literals
+TokKw == {"a", "b", ",", "'", "\"", "\\", " ", "&"}
 VARIABLES txt, n
 Init == txt = "" /\ n = 0
 Next == \E c \in Tokens : n < MaxLen /\ txt' = txt \o c /\ n' = n + 1
